@@ -39,6 +39,14 @@ PROBES: dict = {
         PROG([ASSIGN("t", I(0)), ASSIGN("i", I(0)), WHILE(CMP(V("i"), ("<", I(4))), [AUG("i", "+", I(1)), IF([(CMP(V("i"), ("==", I(2))), [CONTINUE])]), AUG("t", "+", V("i"))]), WRITE(V("t"))], pid="probe-continue-while")]),
     "chained-cmp-double-eval": ("C01", "chained-cmp-call", [
         PROG([ASSIGN("c", I(0)), WRITE(CMP(I(0), ("<", CALL("nxt")), ("<", I(5)))), WRITE(V("c"))], defs=_NXT, pid="probe-chain")]),
+    # (the chain must stay LAZY: when an earlier comparison is false the operands to its right are not evaluated at all - these two
+    #  conform on the pinned tree and are recorded as such; any other outcome is a violation)
+    "chained-cmp-double-eval#lazy": ("C01", "chained-cmp-call", [
+        PROG([ASSIGN("c", I(0)), ASSIGN("b", I(0)), WRITE(CMP(I(5), ("<", CALL("nxt")), ("<", CALL("bump")))), WRITE(V("c")), WRITE(V("b"))],
+             defs={**_NXT, "bump": DEF([], [AUG("b", "+", I(1)), RETURN(I(9))], ["b"])}, pid="probe-chain-lazy"),
+        PROG([ASSIGN("c", I(0)), ASSIGN("b", I(0))],
+             [IF([(CMP(AREAD(), ("<", CALL("nxt")), ("<=", CALL("bump"))), [WRITE(S("in"))])], [WRITE(S("out"))]), WRITE(V("b"))],
+             defs={**_NXT, "bump": DEF([], [AUG("b", "+", I(1)), RETURN(I(2))], ["b"])}, ain=[0, 5, 0], npass=3, pid="probe-chain-lazy-loop")]),
     "macro-double-eval": ("C01", "macro-arg-call", [
         PROG([ASSIGN("c", I(0)), WRITE(CALL("max", CALL("nxt"), I(0))), WRITE(V("c"))], defs=_NXT, pid="probe-max"),
         PROG([ASSIGN("c", I(0)), WRITE(CALL("abs", CALL("nxt"))), WRITE(V("c"))], defs=_NXT, pid="probe-abs")]),
@@ -83,7 +91,7 @@ def signature(res: dict) -> dict:
 
 
 def run_probes(run, prop: str) -> None:
-    todo = [(fid, p) for fid, (pp, _tag, progs) in PROBES.items() if pp == prop for p in progs]
+    todo = [(fid.split("#")[0], p) for fid, (pp, _tag, progs) in PROBES.items() if pp == prop for p in progs]
     if not todo:
         return
     res = lang.three_way([p for _f, p in todo], run, f"{prop} probes")
@@ -111,7 +119,7 @@ if __name__ == "__main__":      # development helper: print the signatures of al
     allp = [(fid, p) for fid, (_pp, _t, progs) in PROBES.items() for p in progs]
     res = lang.three_way([p for _f, p in allp])
     for fid, p in allp:
-        out.setdefault(fid, {})[p["id"]] = signature(res[p["id"]])
+        out.setdefault(fid.split("#")[0], {})[p["id"]] = signature(res[p["id"]])
         v = res[p["id"]]["verdict"]
-        print(fid, p["id"], "wd", v["wd"], "feat", v["feat"], json.dumps(out[fid][p["id"]])[:160], file=sys.stderr)
+        print(fid, p["id"], "wd", v["wd"], "feat", v["feat"], json.dumps(out[fid.split("#")[0]][p["id"]])[:160], file=sys.stderr)
     json.dump(out, sys.stdout, indent=1)
